@@ -22,7 +22,39 @@ class Plugin(HistPlugin):
             'Non-trivial = some stored or queried value is a datetime that needed normalising.')
     assumptions = ['utc offsets are whole minutes']
 
+    def gen_focus(self, rng):
+        """documents carrying datetimes, then every reader / filter-taking writer addressed with
+        ANOTHER representation of a stored millisecond: chained Cursor.sort(), cursor indexing,
+        distinct, count, update, delete"""
+        gen.DATE_MODE[0] = 'rich'
+        try:
+            dates = [gen.rich_date(rng) for _ in range(rng.choice([2, 3]))]
+            ops = [{'op': 'clock', 't': 0}]
+            docs = [{'_id': k + 1, 'd': d, 'r': rng.choice([1, 2, 3]), 'n': {'w': [d]}} for k, d in enumerate(dates)]
+            ops.append({'op': 'insert_many', 'docs': docs, 'ordered': True})
+            for _ in range(rng.choice([2, 3, 4])):
+                d = gen.same_instant(rng, rng.choice(dates))
+                f = rng.choice([{'d': d}, {'d': {'$gte': d}}, {'d': {'$in': [d]}}, {'n.w': d}, {'d': {'$lte': d}, 'r': {'$gte': 1}}])
+                k = rng.choice(['chain', 'chain', 'index', 'distinct', 'count', 'update', 'delete', 'kwargs'])
+                if k in ('chain', 'index', 'kwargs'):
+                    ops.append({'op': 'find', 'filter': f, 'proj': None, 'sort': [['r', rng.choice([1, -1])]],
+                                'skip': 0, 'limit': 0, 'via': k})
+                elif k == 'distinct':
+                    ops.append({'op': 'distinct', 'key': rng.choice(['d', 'n.w']), 'filter': f})
+                elif k == 'count':
+                    ops.append({'op': 'count', 'filter': f, 'skip': 0, 'limit': None})
+                elif k == 'update':
+                    ops.append({'op': 'update', 'filter': f, 'update': {'$set': {'m': gen.rich_date(rng)}},
+                                'multi': rng.random() < 0.5, 'upsert': False})
+                else:
+                    ops.append({'op': 'delete', 'filter': f, 'multi': False})
+        finally:
+            gen.DATE_MODE[0] = 'plain'
+        return {'ops': ops, 'pre5': False, 'aware': rng.random() < 0.5}
+
     def gen_case(self, rng, i, tier):
+        if rng.random() < 0.35:
+            return self.gen_focus(rng)
         gen.DATE_MODE[0] = 'rich'
         try:
             pre5 = rng.random() < 0.1
@@ -40,6 +72,64 @@ class Plugin(HistPlugin):
                 if not op['sort']:
                     op['sort'] = [[rng.choice(['_id', 'a', 'b']), rng.choice([1, -1])]]
         return {'ops': ops, 'pre5': pre5, 'aware': rng.random() < 0.5}
+
+    def extra_checks(self, rng, tier, seed):
+        """Query consistency on the implementation: two filters whose datetimes denote the same
+        milliseconds must select the same documents through every reading entry point (find with
+        sort= and with a chained Cursor.sort(), cursor indexing, count_documents, distinct)."""
+        import copy
+        import mongomock
+        n = 200 if tier == 'quick' else 4000
+        viol, probes = [], 0
+        for i in range(n):
+            gen.DATE_MODE[0] = 'rich'
+            try:
+                dates = [gen.rich_date(rng) for _ in range(rng.choice([2, 3, 4]))]
+                docs = [{'_id': k + 1, 'd': d, 'r': rng.choice([1, 2, 3])} for k, d in enumerate(dates)]
+                base = rng.choice(dates)
+                d1, d2 = gen.same_instant(rng, base), gen.same_instant(rng, base)
+                shape = rng.choice(['eq', 'gte', 'in', 'lte'])
+            finally:
+                gen.DATE_MODE[0] = 'plain'
+
+            def flt(d):
+                return {'eq': {'d': d}, 'gte': {'d': {'$gte': d}}, 'in': {'d': {'$in': [d]}},
+                        'lte': {'d': {'$lte': d}}}[shape]
+
+            def run(d, aware):
+                c = mongomock.MongoClient(tz_aware=aware).db.c
+                c.insert_many(copy.deepcopy(docs))
+                out = {}
+                out['find_kw'] = [x['_id'] for x in c.find(flt(d), sort=[('r', 1), ('_id', 1)])]
+                out['find_chain'] = [x['_id'] for x in c.find(flt(d)).sort([('r', 1), ('_id', 1)])]
+                cur = c.find(flt(d)).sort([('r', 1), ('_id', 1)])
+                try:
+                    out['index0'] = [cur[0]['_id']]
+                except IndexError:
+                    out['index0'] = []
+                out['count'] = c.count_documents(flt(d))
+                out['distinct'] = sorted(c.distinct('_id', flt(d)))
+                return out
+            aware = rng.random() < 0.5
+            try:
+                a, b = run(d1, aware), run(d2, aware)
+            except Exception as e:  # noqa
+                viol.append({'case': {'docs': common.to_jsonable(docs), 'd1': common.to_jsonable(d1), 'shape': shape},
+                             'impl': {'raised': type(e).__name__},
+                             'failing_clause': 'a reading entry point raised on a datetime filter'})
+                continue
+            probes += 1
+            ok = a == b and a['find_kw'] == a['find_chain'] and a['index0'] == a['find_kw'][:1] \
+                and a['count'] == len(a['find_kw']) and a['distinct'] == sorted(a['find_kw'])
+            if not ok:
+                viol.append({'case': {'docs': common.to_jsonable(docs), 'd1': common.to_jsonable(d1),
+                                      'd2': common.to_jsonable(d2), 'shape': shape, 'tz_aware': aware},
+                             'impl': {'first': a, 'second': b},
+                             'failing_clause': 'two filters denoting the same millisecond (or two reading entry '
+                                               'points) select different documents'})
+                if len(viol) >= 3:
+                    break
+        return viol, {'query_consistency_probes': probes}
 
     def first_ops(self, rng):
         return [{'op': 'clock', 't': rng.choice([0, 1234567, 999, 1000])}]
